@@ -9,7 +9,7 @@ use crate::{for_both, hx, Ctx};
 use blsful::*;
 use serde_json::json;
 
-pub const RULE: &str = "differential, byte level: (a) seeds of length 0..=64 and 1024 -> SecretKey::from_hash vs reference HKDF KeyGen written over HMAC-SHA-256; SecretKey::random with a known-stream RNG vs KeyGen(first 32 stream bytes); (b) keys (edge + random) -> public_key vs reference SkToPk; (c) keys x messages (length classes; and messages equal to / starting with / one byte short of the signer's own public key) x 3 schemes -> sign vs reference Sign, incl. wire form = variant byte || compressed point; proof_of_possession vs PopProve; (d) aggregate / multi-signature accumulation vs reference point sum; (e) cross-verification both ways; (f) the 8 signature/PoP tag constants vs the draft's literal strings (finite, exhaustive). Distinct by (suite, op, input bytes); non-trivial = both sides produced an output that was compared byte for byte. (g) history clusters (3 quick / 48 thorough per group, one with msg = the key's own public-key bytes): {sign, verify} x 3 schemes x 2 group assignments + proof of possession x 2 over one (key, message), every ordered pair (a,b) asked as a,b,b,a; every answer must be the reference's bytes.";
+pub const RULE: &str = "differential, byte level: (a) seeds of length 0..=64 and 1024 -> SecretKey::from_hash vs reference HKDF KeyGen written over HMAC-SHA-256; SecretKey::random with a known-stream RNG vs KeyGen(first 32 stream bytes); (b) keys (edge + random) -> public_key vs reference SkToPk; (c) keys x messages (length classes; and messages equal to / starting with / one byte short of the signer's own public key) x 3 schemes -> sign vs reference Sign, incl. wire form = variant byte || compressed point; proof_of_possession vs PopProve; (d) aggregate / multi-signature accumulation vs reference point sum, also for lists that contain the identity signature (first, second, middle, last, twice) or the first entry again, through both accumulation doors; (e) cross-verification both ways; (f) the 8 signature/PoP tag constants vs the draft's literal strings (finite, exhaustive). Distinct by (suite, op, input bytes); non-trivial = both sides produced an output that was compared byte for byte. (g) history clusters (3 quick / 48 thorough per group, one with msg = the key's own public-key bytes): {sign, verify} x 3 schemes x 2 group assignments + proof of possession x 2 over one (key, message), every ordered pair (a,b) asked as a,b,b,a; every answer must be the reference's bytes.";
 
 pub fn run(ctx: &mut Ctx) {
     for_both!(run_suite, ctx);
@@ -268,6 +268,38 @@ fn run_suite<C: Suite>(ctx: &mut Ctx) {
                 }
             }
             ctx.hit(&format!("{sigp}/aggregate"), &[&rsum.enc()]);
+            // edge entries: the identity signature (a valid encoding; the draft's Aggregate adds
+            // every entry) at the front, in the middle and at the end, and the same signature twice:
+            // whatever the accumulation returns must be the plain group sum of ALL entries, through
+            // both doors; refusing such a list is not asserted here
+            if cnt >= 3 {
+                let inf = wrap_sig::<C>(scheme, sig_id::<C>());
+                let mut lists: Vec<(&str, Vec<Signature<C>>, RSig<C>)> = Vec::new();
+                let mut l = sigs.clone(); l.insert(0, inf); lists.push(("identity-first", l, rsum));
+                let mut l = sigs.clone(); l.insert(1, inf); lists.push(("identity-second", l, rsum));
+                let mut l = sigs.clone(); l.insert(cnt / 2 + 1, inf); lists.push(("identity-middle", l, rsum));
+                let mut l = sigs.clone(); l.push(inf); lists.push(("identity-last", l, rsum));
+                let mut l = sigs.clone(); l.insert(1, inf); l.insert(3, inf); lists.push(("identity-twice", l, rsum));
+                let mut l = sigs.clone(); l.insert(2, sigs[0]); lists.push(("first-entry-again", l, rsum.add(rsig_of::<C>(&sigs[0]))));
+                for (ln, l, want) in lists {
+                    for (door, got) in [
+                        ("from_signatures", AggregateSignature::<C>::from_signatures(&l).ok().map(|a| enc_pt(&agg_pt(&a)))),
+                        ("try_from", <AggregateSignature<C> as TryFrom<&[Signature<C>]>>::try_from(&l[..]).ok().map(|a| enc_pt(&agg_pt(&a)))),
+                    ] {
+                        if let Some(got) = got {
+                            ctx.expect(got == want.enc(), &format!("C03/aggregate-sum/{sigp}"), || {
+                                json!({"what":"the aggregate of a list with an edge entry is not the plain group sum of all entries","list":ln,"door":door,"n":l.len(),"lib":hex::encode(&got),"ref":hex::encode(want.enc())})
+                            });
+                            ctx.hit(&format!("{sigp}/aggregate"), &[ln.as_bytes(), door.as_bytes(), &want.enc()]);
+                        }
+                    }
+                    if scheme != Scheme::Aug {
+                        if let Ok(m) = MultiSignature::<C>::from_signatures(&l) {
+                            ctx.expect(enc_pt(m.as_raw_value()) == want.enc(), &format!("C03/multi-sum/{sigp}"), || json!({"what":"the multi-signature of a list with an edge entry is not the plain group sum","list":ln,"n":l.len()}));
+                        }
+                    }
+                }
+            }
         }
         ctx.require(&format!("{n}/{}/aggregate", scheme.name()));
     }
